@@ -23,7 +23,7 @@ KEYS = {
 def _oracle(chk, r, a, head, rows):
     """The property itself on the real objects of one assignment."""
     cid = pitcheck.case_id(r, a)
-    unsup = pitcheck.unsupported_key(head, r) if head.get('sup') == '0' else None
+    unsup = pitcheck.unsupported_key(head, r) if (head.get('sup') == '0' or (head.get('sup') is None and r['spec']['opts'].get('unsupported'))) else None
     if a.get('export_error'):
         key = KEYS.get(unsup, 'C09:export-shape-inconsistent' + (':excluded' if r['excl'] else ''))
         chk.violation(key, 'exported network does not run: %s' % a['export_error'], dict(cid, kind='net'))
